@@ -564,8 +564,9 @@ def pct_decode_strict(piece):
 
 
 def decompose(s):
-    """right-to-left decomposition of a purl string after `pkg:`; None if no scheme"""
-    if not s.startswith("pkg:"):
+    """right-to-left decomposition of a purl string after `pkg:`; None if no scheme (letter-case variants of the
+    scheme itself are not judged by C05: they decompose like `pkg:`)"""
+    if s[:4].lower() != "pkg:" or not s[:4].isascii():
         return None
     r = s[4:].lstrip("/")
     sub = q = None
@@ -1151,6 +1152,37 @@ def oracle_C15(ctx, cases, answers):
             if p.startswith("OK:"):
                 v.append((i, "the percent-encoded type of %r is taken for a type: %s" % (c["s"], p[:80])))
             continue
+        if c.get("stream") == "ptype-in-purl":
+            f = fields(a)
+            p = f.get("p", a)
+            if not p.startswith("OK:"):
+                v.append((i, "%r (type in a case variant of %r) is refused: %s" % (c["s"], c["expect"], p[:80])))
+                continue
+            pp = parse_purl(p[3:])
+            canon = unhx(f["s"]) if "s" in f else ""
+            if "bad" in pp or pp["flags"]:
+                v.append((i, "%r: anomaly %s (Display under a width / precision format spec differs from to_string())" % (c["s"], pp.get("flags") or pp.get("bad"))))
+            elif pp["ty"] != c["expect"] or not canon.startswith("pkg:" + c["expect"] + "/"):
+                v.append((i, "the type string used in the PURL of %r is %r / %r, the name is %r" % (c["s"], pp["ty"], canon[:24], c["expect"])))
+            continue
+        if c.get("stream") == "pt":
+            if a == "NA":
+                continue
+            f = fields(a)
+            name = c["ident"].lower()
+            import json as _json
+            if unhx(f["json"]) != _json.dumps(name) or f.get("back") != "T" or any(
+                    f.get(k) is not None and f.get(k) != "variant:" + name.encode().hex() for k in ("rec1", "rec0")):
+                v.append((i, "serde form of PackageType::%s is %s (%s / %s), the name is %r" % (c["ident"], unhx(f["json"]), f.get("rec1"), f.get("rec0"), name)))
+            continue
+        if c.get("stream") == "ser":
+            if a == "NA":
+                continue
+            f = fields(a)
+            want = "str:" + ("pkg:%s/ns/name@1.0" % c["expect"]).encode().hex()
+            if not a.startswith("OK:") or f.get("rec1") != want or f.get("rec0") != want:
+                v.append((i, "serialising %r does not write the type as %r: %s" % (c["s"], c["expect"], a[:120])))
+            continue
         if not c["req"].startswith("ptype "):
             continue
         s = unhx(c["req"].split(" ")[1])
@@ -1282,6 +1314,15 @@ def oracle_C16(ctx, cases, answers):
             if val != canon or unhx(f["jstr"]) != canon:
                 v.append((i, "serialised value %r is not the canonical string %r" % (val, canon)))
                 continue
+            bad_rec = False
+            for k, what in (("rec1", "a human-readable"), ("rec0", "a compact (not human-readable)")):
+                r = f.get(k)
+                if r is not None and r != "str:" + f["s"]:
+                    v.append((i, "%s serializer does not receive the canonical string as one string value but %s" % (what, r[:100])))
+                    bad_rec = True
+                    break
+            if bad_rec:
+                continue
             back = f.get("back", "")
             if not back.startswith("OK:") or not back.endswith(":T"):
                 v.append((i, "the JSON round trip does not give the PURL back: %s" % back[:100]))
@@ -1328,4 +1369,6 @@ def oracle_C16(ctx, cases, answers):
             name = c["ident"].lower()
             if unhx(f["json"]) != _json.dumps(name) or f.get("back") != "T":
                 v.append((i, "serde form of PackageType::%s is %s" % (c["ident"], unhx(f["json"]))))
+            elif any(f.get(k) is not None and f.get(k) != "variant:" + name.encode().hex() for k in ("rec1", "rec0")):
+                v.append((i, "PackageType::%s is serialised as %s / %s, not as the unit variant %r" % (c["ident"], f.get("rec1"), f.get("rec0"), name)))
     return v
